@@ -7,7 +7,9 @@ mod c04;
 mod c05;
 mod c07;
 mod c08;
+mod c09;
 mod c10;
+mod c11;
 mod driver_rig;
 mod evm_stub;
 mod node_rig;
@@ -39,7 +41,9 @@ fn dispatch(id: &str, tier: Option<&str>) {
         "C05" => c05::main(tier),
         "C07" => c07::main(tier),
         "C08" => c08::main(tier),
+        "C09" => c09::main(tier),
         "C10" => c10::main(tier),
+        "C11" => c11::main(tier),
         _ => {
             eprintln!("usage: vcheck-node <C01|...> [quick|thorough]");
             std::process::exit(2);
